@@ -6,7 +6,7 @@ The real __mul__/__rmul__/__neg__/__truediv__/conj/transpose/conjugate_transpose
 _mps_parent.py and add/multiply of _mps_obc.py are interpreted on ghost site tensors.
 """
 from pyvc import sym
-from pyvc.sym import And, Or, Not, Implies, Iff, Ite, deep_eq, Sym, SCx
+from pyvc.sym import And, Or, Not, Implies, Iff, Ite, deep_eq, Sym, SCx, SPolar
 from contracts.ghost_mps import World, GT, install_world_norms, state_of, make_psi
 
 PROPERTY = 'C06'
@@ -65,10 +65,9 @@ def h_scalar(V, N, nr_phys, op, sign):
         V.assume(x > 0)
     elif sign == 'neg':
         V.assume(x < 0)
-    else:                       # a complex scalar with non-zero imaginary part (any real part)
-        im = V.real('number_im')
-        V.assume(im != 0)
-        x = SCx(x, im)
+    else:                       # any complex scalar that is not real: modulus * (unit phase)  -- pyvc.sym.SPolar
+        V.assume(x > 0)
+        x = SPolar(x, 1)
     if op == 'mul':
         r, want = V.call(psi.__mul__, x), x * s0
     elif op == 'rmul':
@@ -88,7 +87,7 @@ def h_scalar(V, N, nr_phys, op, sign):
             red0, red1 = red0 * psi.A[n].scale, red1 * r.A[n].scale
     mult = {'mul': lambda z: x * z, 'rmul': lambda z: x * z, 'neg': lambda z: -z, 'div': lambda z: z / x}[op]
     V.check_via('state-is-the-scalar-multiple', And(red1 == mult(red0), w1 == w0), And(s1 == want, w1 == w0))
-    V.check('factor-stays-non-negative', And(r.factor >= 0, not isinstance(r.factor, SCx)))
+    V.check('factor-stays-non-negative', And(r.factor >= 0, not isinstance(r.factor, (SCx, SPolar))))
     V.check('new-object-and-operand-untouched', r is not psi and unchanged(psi, snap) and r.A is not psi.A)
 
 
